@@ -44,7 +44,7 @@ ANCHOR_FUNCS = {
 }
 TIMEOUT = {'quick': 900, 'thorough': 3600}
 
-SHEETS = ['Sheet1', 'Data', 'My Sheet', "It's", 'Q1 2020']
+SHEETS = ['Sheet1', 'Data', 'My Sheet', "It's", 'Q1 2020', 'Sheet10', 'Data2']
 F4 = (False,) * 4
 
 
@@ -263,6 +263,12 @@ def run(ctx):
     forms_seen = set()
     for fi in range(n_files):
         sheets = rng.sample(SHEETS, rng.randint(1, 4))
+        if rng.random() < 0.25:
+            # a sheet whose name starts with the name of another one (the
+            # shorter one may be ignored, the longer one carries the names)
+            pair = rng.choice([['Sheet10', 'Sheet1'], ['Data2', 'Data']])
+            sheets = pair + [x for x in sheets if x not in pair][:2]
+            ctx.event('prefix_named_sheets')
         sp = gen_file(rng, sheets)
         with_names = rng.random() < 0.6
         if with_names:
@@ -294,7 +300,8 @@ def run(ctx):
                                  'formula': ref.render(a3), 'cached': None,
                                  'uses_name': True}
                 sp.wbcells[k3] = ('f', a3)
-        path = os.path.join(out, f's{ctx.shard}_{fi}.xlsx')
+        # one path per shard: every workbook overwrites the previous one
+        path = os.path.join(out, f's{ctx.shard}.xlsx')
         sp.sb.write(path)
         forms_seen |= sp.forms
         subsets = []
